@@ -438,6 +438,19 @@ class Gen(object):
                     second = r.randrange(shape[1]) if r.random() < 0.5 else ['sl', None, None, r.choice([None, -1])]
                     return [first, second]
                 return first
+            if len(shape) >= 2 and q < 0.72:
+                # a basic index BEFORE the advanced one: x[:, [0, 2]], x[1:, [1]], x[..., [0, 2]], x[:, mask]
+                n1 = shape[1]
+                if r.random() < 0.7:
+                    second = [r.choice(['fx', 'fx', 'ia']), r.sample(range(n1), r.randint(1, n1))]
+                else:
+                    m1 = [r.random() < 0.5 for _ in range(n1)]
+                    if not any(m1):
+                        m1[r.randrange(n1)] = True
+                    second = ['bm', m1]
+                first = r.choice([['sl', None, None, None], ['sl', None, None, None], ['el'],
+                                  ['sl', r.randrange(n0), None, None], ['sl', None, None, -1]])
+                return [first, second]
             if q < 0.8 or len(shape) < 2:
                 m = [r.random() < 0.5 for _ in range(n0)]
                 if not any(m):
@@ -1570,8 +1583,31 @@ class Gen(object):
             v = Q.unscale(c, fmt[2])
             val = self.scalar_spec(v) if V.float_ok(v) else ['i', int(v) + sign]
         kw = {'overflow': 'saturate'}
+        sat_only = lambda o: o.config.overflow == 'saturate'
+        if self.p.prop == 'C04' and r.random() < 0.35:
+            # C04 judges integers of any size under wrap too (which side they left the range on)
+            kw = {'overflow': 'wrap'}
+            sat_only = lambda o: True
         if r.random() < 0.6:
             kw['rounding'] = r.choice(ROUNDINGS)
+        if self.p.prop == 'C04' and r.random() < 0.12:
+            # machine integers in the last 2^n_word below 2^63 (and just above -2^63), as an int64 array,
+            # a list, or raw codes: where a biased or doubled intermediate leaves int64
+            top = (1 << 63) - 1 - r.randrange(1 << min(nw, 40))
+            items = [top if sign > 0 else -top - 1]
+            if r.random() < 0.6:
+                items.append(r.choice([0, 1, -1, 5, -(1 << 62), (1 << 62)]))
+            r.shuffle(items)
+            arr = r.choice([['a', 'int64', [len(items)], [[it, 0] for it in items]], ['l', [['i', it] for it in items]]])
+            fmt0 = [fmt[0], nw, r.choice([0, 0, fmt[2]])]
+            if r.random() < 0.5:
+                return {'op': 'new', 'val': arr, 'fmt': fmt0, 'kw': kw, 'raw': r.random() < 0.4}
+            ks, i = self.pick(lambda o: self.is_real(o) and sat_only(o) and not o.scaled)
+            if ks is None:
+                return {'op': 'new', 'val': arr, 'fmt': fmt0, 'kw': kw}
+            if r.random() < 0.5:
+                return {'op': 'set_raw', 'slot': self.cands().index(i), 'val': arr}
+            return {'op': 'call', 'slot': self.cands().index(i), 'val': arr, 'via': r.choice(['call', 'set_val'])}
         if 'strings' in self.p.groups and r.random() < 0.08:
             # decimal literals of great magnitude, with and without a fractional part, as a NumPy string
             # array / a list of strings / one string
@@ -1589,7 +1625,7 @@ class Gen(object):
                 items.append(r.choice([0, 1, sign * 3, -sign * 2, sign * (1 << 63)]))
             arr = ['a', 'object', [len(items)], [[it, 0] for it in items]]
             q2 = r.random()
-            pred2 = lambda o: self.is_real(o) and o.config.overflow == 'saturate' and o.n_frac >= 0 and not o.scaled
+            pred2 = lambda o: self.is_real(o) and sat_only(o) and o.n_frac >= 0 and not o.scaled
             ks, i = self.pick(pred2)
             if q2 < 0.4 or ks is None:
                 return {'op': 'new', 'val': arr, 'fmt': fmt, 'kw': kw, 'raw': r.random() < 0.5}
@@ -1622,7 +1658,7 @@ class Gen(object):
             if as_code:
                 op['raw'] = True
             return op
-        pred = lambda o: self.is_real(o) and o.config.overflow == 'saturate' and o.n_frac >= 0 and not o.scaled
+        pred = lambda o: self.is_real(o) and sat_only(o) and o.n_frac >= 0 and not o.scaled
         if as_code and q < 0.75:
             ks, i = self.pick(pred)
             if ks is not None:
